@@ -36,6 +36,7 @@ type memNet struct {
 	holeC2S  bool // applied to connections dialled from now on
 	holeS2C  bool
 	cutAfterEach int64 // every connection dialled from now on is cut after this many client->server bytes
+	wsLatency    time.Duration // client->server latency of WebSocket connections dialled from now on (a slow uplink on the new transport)
 }
 
 func newMemNet() *memNet {
@@ -95,6 +96,7 @@ func (n *memNet) Dial(ctx context.Context, network, addr string) (net.Conn, erro
 	n.mu.Lock()
 	fc.holeC2S, fc.holeS2C = n.holeC2S, n.holeS2C
 	fc.cutAfter = n.cutAfterEach
+	fc.wsLatency = n.wsLatency
 	n.conns = append(n.conns, fc)
 	n.mu.Unlock()
 	select {
@@ -141,6 +143,15 @@ type faultConn struct {
 	cutAfterHeader int64
 	headerEnd      int64 // offset just after the first "\r\n\r\n" (0 = not seen yet)
 	tail           []byte
+	wsLatency      time.Duration // applied to every client->server write once the first write turned out to be a WebSocket upgrade request
+	sniffed, isWS  bool
+	line           chan delayed
+	lineClosed     bool
+}
+
+type delayed struct {
+	due time.Time
+	p   []byte
 }
 
 func (c *faultConn) setBlackhole(c2s, s2c bool) {
@@ -153,14 +164,62 @@ func (c *faultConn) cut() {
 	c.mu.Lock()
 	c.isCut = true
 	c.mu.Unlock()
-	c.Conn.Close()
+	c.Close()
 	c.peer.Close()
+}
+
+// Close also ends the delay line's forwarder
+func (c *faultConn) Close() error {
+	c.mu.Lock()
+	if c.line != nil && !c.lineClosed {
+		c.lineClosed = true
+		close(c.line)
+	}
+	c.mu.Unlock()
+	return c.Conn.Close()
 }
 
 func (c *faultConn) Write(p []byte) (int, error) {
 	c.mu.Lock()
 	hole, cutAfter, sent := c.holeC2S, c.cutAfter, c.sentC2S
+	if !c.sniffed {
+		c.sniffed = true
+		c.isWS = strings.Contains(strings.ToLower(string(p)), "upgrade: websocket")
+	}
+	lat := time.Duration(0)
+	if c.isWS {
+		lat = c.wsLatency
+	}
 	c.mu.Unlock()
+	if lat > 0 {
+		// a delay line: the write returns at once (a sleep here would be a sleep under whatever lock the caller holds, and a
+		// goroutine queued on that lock keeps a synctest bubble's clock from advancing); a forwarder delivers each chunk `lat` later
+		c.mu.Lock()
+		if c.line == nil {
+			c.line = make(chan delayed, 4096)
+			go func(line chan delayed) {
+				for d := range line {
+					if w := time.Until(d.due); w > 0 {
+						time.Sleep(w)
+					}
+					if _, err := c.Conn.Write(d.p); err != nil {
+						return
+					}
+				}
+			}(c.line)
+		}
+		if c.lineClosed {
+			c.mu.Unlock()
+			return 0, io.ErrClosedPipe
+		}
+		c.sentC2S += int64(len(p))
+		select {
+		case c.line <- delayed{due: time.Now().Add(lat), p: append([]byte(nil), p...)}:
+		default:
+		}
+		c.mu.Unlock()
+		return len(p), nil
+	}
 	if hole {
 		return len(p), nil
 	}
